@@ -752,6 +752,17 @@ func (c13) Gen(r *kern.Rng, tier string, idx int) *Trace {
 			w.Ops = GenOps(r, w.Data.Len, 0, 20)
 			p.In = scen.InputSpec{Parts: []scen.StreamSpec{{Enc: "std", W: w}}}
 			p.Dict = &d
+			switch r.Weighted(6, 2, 2) {
+			case 1:
+				// the earlier Reset FAILS: wrong dictionary (ErrDictionary after the DICTID was read)
+				wrong := d
+				wrong.Seed ^= 0xa5a5
+				wrong.Kind, wrong.Len = "rand", 40
+				p.Dict = &wrong
+			case 2:
+				// ... or the container is cut inside its header / DICTID
+				p.In.Mut = []scen.Mutation{{K: "trunc", Pos: r.Pick(1, 2, 3, 4, 5)}}
+			}
 		}
 		sc.Prior = append(sc.Prior, p)
 	}
